@@ -337,6 +337,25 @@ impl<'a> Tr<'a> {
             let ty = self.ret_ty.clone();
             return Ok(Some(self.bind_typed(act, ty)));
         }
+        // `res.map_err(|_| e)` in result position: the mapped `Result` is the function's outcome
+        if m.method == "map_err" && m.args.len() == 1 && self.reader_self.is_some() {
+            if let Expr::Closure(cl) = &m.args[0] {
+                if cl.inputs.len() == 1 && matches!(cl.inputs[0], Pat::Wild(_)) {
+                    if self.nontail_sub > 0 || self.in_loop > 0 {
+                        return Err("map_err in a nested block".into());
+                    }
+                    let recv = self.expr(&m.receiver)?;
+                    let mark = self.lines.len();
+                    let e = self.expr(&cl.body)?;
+                    if self.lines.len() != mark {
+                        return Err("map_err closure with effects".into());
+                    }
+                    let ty = self.ret_ty.clone();
+                    return Ok(Some(self.bind_typed(format!("Rs.R.of_result (Rs.mapErr {recv} {e})"), ty)));
+                }
+            }
+            return Ok(None);
+        }
         if m.method == "and_then" && m.args.len() == 1 {
             let cl = match &m.args[0] { Expr::Closure(cl) if cl.inputs.len() == 1 => cl, _ => return Ok(None) };
             let var = match &cl.inputs[0] { Pat::Ident(id) if id.by_ref.is_none() && id.mutability.is_none() => id.ident.to_string(), _ => return Ok(None) };
